@@ -44,7 +44,7 @@ StdTypes == {<<TItem, TMyErr, TColor>>}
 
 Prm(n, t, k, al, v) == [name |-> n, type |-> t, kind |-> k, alias |-> al, validate |-> v]
 ParamsC06 ==
-    { Prm(n, t, "Path", al, "") : n \in {"a"}, t \in {"string", "int", "p1.Color"}, al \in {"", "x_a"} }
+    { Prm(n, t, "Path", al, "") : n \in {"a"}, t \in {"string", "int", "p1.Color"}, al \in {"", "x_a", "x-a"} }
     \cup { Prm(n, t, "Query", al, v) : n \in {"b"}, t \in {"string", "*string", "int", "*int", "bool", "float64", "[]string", "[]int", "p1.Color", "*p1.Color"},
                                          al \in {"", "x-b"}, v \in {"", "required", "omitempty"} }
     \cup { Prm(n, t, "Header", al, v) : n \in {"c"}, t \in {"string", "*string", "int", "*bool"}, al \in {"", "X-C"}, v \in {"", "required"} }
@@ -63,7 +63,7 @@ ParamListOk(ps) == /\ \A i, j \in DOMAIN ps : i # j => ps[i].name # ps[j].name
                    /\ Cardinality({i \in DOMAIN ps : ps[i].kind = "Body"}) <= 1
                    /\ ~((\E i \in DOMAIN ps : ps[i].kind = "Body") /\ (\E i \in DOMAIN ps : ps[i].kind = "FormField"))
 \* single parameters exhaustively; pairs and triples over a reduced set (one representative per location/pointer-ness)
-ParamsPair == { Prm("a", "string", "Path", "", ""), Prm("a", "int", "Path", "x_a", ""), Prm("b", "*int", "Query", "", ""), Prm("b", "[]string", "Query", "x-b", "required"),
+ParamsPair == { Prm("a", "string", "Path", "", ""), Prm("a", "int", "Path", "x_a", ""), Prm("a", "string", "Path", "x-a", ""), Prm("b", "*int", "Query", "", ""), Prm("b", "[]string", "Query", "x-b", "required"),
                 Prm("c", "*string", "Header", "X-C", ""), Prm("c", "int", "Header", "", ""), Prm("d", "string", "FormField", "", ""), Prm("d", "*int", "FormField", "", "required"),
                 Prm("e", "p1.Item", "Body", "", ""), Prm("e", "*p1.Item", "Body", "", ""), Prm("ctx", "context.Context", "Context", "", "") }
 ParamLists == {<<>>} \cup {<<a>> : a \in ParamsC06} \cup {ps \in {<<a, b>> : a \in ParamsPair, b \in ParamsPair} : ParamListOk(ps)}
@@ -94,15 +94,20 @@ TLevel == Ty("p2", "Level", "enum", "int", <<>>, <<Con("Low", "1"), Con("High", 
 TCode  == Ty("p2", "Code", "alias", "string", <<>>, <<>>)
 TBase  == Ty("p1", "Base", "struct", "", <<Fld("Created", "time.Time", "created", ""), Fld("By", "string", "by", "email")>>, <<>>)
 TDeriv == Ty("p1", "Derived", "struct", "", <<FldE("p1.Base"), Fld("Extra", "bool", "extra", "")>>, <<>>)
+\* embedding an UNEXPORTED struct type (its exported fields are still promoted by encoding/json), by value and by pointer
+TAudit == Ty("p1", "audit", "struct", "", <<Fld("CreatedBy", "string", "createdBy", "required")>>, <<>>)
+TStamp == Ty("p1", "stamps", "struct", "", <<Fld("At", "time.Time", "at", "")>>, <<>>)
+TDoc   == Ty("p1", "Doc", "struct", "", <<FldE("p1.audit"), FldE("*p1.stamps"), FldE("p1.Base"), Fld("Title", "string", "title", "required")>>, <<>>)
 TUnused == Ty("p1", "Unused", "struct", "", <<Fld("X", "int", "x", "")>>, <<>>)
 TFlag  == Ty("p1", "Flag", "enum", "string", <<>>, <<Con("On", "\"on\""), Con("Off", "\"off\"")>>)
 \* the same enum used with a usage-site oneof: must not change the shared component
 TUser  == Ty("p1", "User", "struct", "", <<Fld("Name", "string", "name", "required"), Fld("Flag", "p1.Flag", "flag", "required,oneof=on")>>, <<>>)
 TypeZoo == { <<TItem, TMyErr, TColor, TOrder, TLine, TLevel, TCode, TUnused>>, <<TItem, TMyErr, TColor, TBase, TDeriv, TUnused>>,
+             <<TItem, TMyErr, TColor, TBase, TAudit, TStamp, TDoc>>,
              <<TItem, TMyErr, TColor, TFlag, TUser>>, <<TItem, TMyErr, TColor, TFlag, TUser, TOrder, TLine, TLevel, TCode, TBase, TDeriv>> }
-ParamsC07 == { Prm("e", t, "Body", "", "") : t \in {"p1.Order", "*p1.Order", "[]p1.Order", "p1.Derived", "p1.User", "p1.Item", "map[string]p1.Item"} }
+ParamsC07 == { Prm("e", t, "Body", "", "") : t \in {"p1.Order", "*p1.Order", "[]p1.Order", "p1.Derived", "p1.User", "p1.Item", "map[string]p1.Item", "p1.Doc"} }
              \cup { Prm("b", t, "Query", "", "") : t \in {"p1.Flag", "p2.Level", "p2.Code", "string"} }
-RetsC07 == { <<"error">>, <<"p1.Order", "error">>, <<"[]p1.Derived", "error">>, <<"p1.User", "error">>, <<"p2.Line", "error">>, <<"*p1.Item", "error">>, <<"p1.Flag", "error">>,
+RetsC07 == { <<"error">>, <<"p1.Doc", "error">>, <<"p1.Order", "error">>, <<"[]p1.Derived", "error">>, <<"p1.User", "error">>, <<"p2.Line", "error">>, <<"*p1.Item", "error">>, <<"p1.Flag", "error">>,
              <<"map[string]p2.Line", "error">>, <<"p1.Item", "p1.MyErr">> }
 CfgsC07 == CfgsC06
 MethodsC07 == { MthP("POST", ps, ret, errs, 0) : ps \in {<<>>} \cup {<<a>> : a \in ParamsC07}, ret \in RetsC07, errs \in {<<>>, <<E(500)>>} }
@@ -149,6 +154,10 @@ BaseJ == [file |-> "", verb |-> "POST", route |-> "/r/{a}", hidden |-> FALSE, de
           ret |-> <<"p1.Item", "error">>, errors |-> <<E(500)>>, response |-> 0, desc |-> "base", ptag |-> ""]
 BaseF == [BaseJ EXCEPT !.route = "/r/{id}/x", !.sig = <<Sg("ctx", "context.Context"), Sg("a", "int"), Sg("d", "string")>>,
                        !.anns = <<An("Path", "a", "id"), An("FormField", "d", "")>>, !.ret = <<"error">>]
+Rev(sq) == [j \in 1..Len(sq) |-> sq[Len(sq) + 1 - j]]
+\* the same routes with the annotation lines in reverse order (the order of annotations must not matter to the verdict)
+BaseJr == [BaseJ EXCEPT !.anns = Rev(BaseJ.anns), !.desc = "base, annotations reversed"]
+BaseFr == [BaseF EXCEPT !.anns = Rev(BaseF.anns), !.desc = "base, annotations reversed"]
 Rm(sq, i) == [j \in 1..(Len(sq) - 1) |-> IF j < i THEN sq[j] ELSE sq[j + 1]]
 Tag(b, t) == IF b.ptag = "" THEN t ELSE b.ptag \o "+" \o t
 Perturb1(b) ==
@@ -170,8 +179,8 @@ Perturb1(b) ==
 Perturb2(b) == UNION {Perturb1(x) : x \in Perturb1(b)}
 CfgsC10 == { Cfg("gin", "3.0.0", FALSE, NoSec, <<"s1">>) }
 CtrlsC10 == { Ctl("p1", "f1", "AController", pre, "A", <<>>) : pre \in {"/a", "/a/{t}"} }
-MethodsC10single == {BaseJ, BaseF} \cup Perturb1(BaseJ) \cup Perturb1(BaseF)
-MethodsC10double == Perturb2(BaseJ) \cup Perturb2(BaseF)
+MethodsC10single == {BaseJ, BaseF, BaseJr, BaseFr} \cup Perturb1(BaseJ) \cup Perturb1(BaseF) \cup Perturb1(BaseJr) \cup Perturb1(BaseFr)
+MethodsC10double == Perturb2(BaseJ) \cup Perturb2(BaseF) \cup Perturb2(BaseJr)
 
 \* ---- model checking of the session machine: small input space, every schedule ------------------------------------------
 CfgsM == { Cfg("gin", v, e, NoSec, <<"s1">>) : v \in {"3.0.0", "3.1.0"}, e \in BOOLEAN } \cup { Cfg("nope", "3.0.0", FALSE, NoSec, <<"s1">>) }
